@@ -275,6 +275,9 @@ func SelfTest(heavy bool) error {
 		if hex.EncodeToString(f.Secret) != v.priv {
 			return fmt.Errorf("vector %s: secret %x, want %s", v.name, f.Secret, v.priv)
 		}
+		if v.heavy {
+			continue
+		}
 		if _, err := Decrypt([]byte(v.js), v.pass+"x"); err != ErrMAC {
 			return fmt.Errorf("vector %s: wrong passphrase gave %v", v.name, err)
 		}
